@@ -1143,6 +1143,14 @@ class Exec:
             v = list(v)
         if isinstance(v, int) and not isinstance(v, bool) and re.search(r'\b(double|float)\b', ty) and '*' not in ty:
             v = D(v)
+        if vd.get('storageClass') == 'static':
+            # a function-local static is state that persists across calls: it is initialised by the FIRST call of the process, so on an arbitrary call it
+            # holds a value computed from an earlier call's arguments/object.  Constant initialisers are kept; anything else is havocked (all histories).
+            if isinstance(v, D) and (sp.sympify(v.v).free_symbols or sp.sympify(v.t).free_symbols):
+                CTX.static_havoc = getattr(CTX, 'static_havoc', 0) + 1
+                v = D(sp.Symbol('static_%s' % name, real=True), 0)
+            elif (isinstance(v, SInt) and v.e.free_symbols) or isinstance(v, (Mx, dict, list)):
+                raise Unsupported('function-local static %s with a non-constant initialiser' % name)
         s.env[name] = s.opaque_hook(name, v)
 
     def opaque_hook(s, name, v):
